@@ -316,6 +316,66 @@ def collect(ctx, results, known):
     return diffs
 
 
+def coq_sample(ctx, results, n):
+    """Second opinion that bypasses extraction and the OCaml driver: a sample of the implementation's observations is
+    re-evaluated INSIDE Coq (vm_compute over the very definitions the theorems are about) by one coqc call.
+    PO lines only: legals (model) and Rules.legal_moves (spec) of the parsed position against the implementation's move set."""
+    lines = []
+    seen = set()
+    for (job, s, obs, res, rc_h, rc_d, err) in results:
+        if rc_h != 0:
+            continue
+        with contextlib.suppress(Exception):
+            with open(obs, errors="replace") as f:
+                for line in f:
+                    if line.startswith("PO\t"):
+                        p = line.rstrip("\n").split("\t")
+                        if len(p) > 3 and p[1] not in seen:
+                            seen.add(p[1])
+                            lines.append(p)
+    if not lines:
+        return []
+    step = max(1, len(lines) // n)
+    pick = lines[::step][:n]
+    promo = {"-": "None", "n": "(Some Knight)", "b": "(Some Bishop)", "r": "(Some Rook)", "q": "(Some Queen)"}
+
+    def mv(t):
+        a, b, c = t.split(".")
+        return "mk %d %d %s" % (int(a), int(b), promo[c])
+    cases = []
+    for p in pick:
+        fen = "[" + ";".join(str(b) for b in p[1].encode()) + "]"
+        mvs = "[" + "; ".join(mv(t) for t in p[3].split(" ") if t) + "]"
+        cases.append("(%s, %s)" % (fen, mvs))
+    src = ("From Coq Require Import NArith List Bool. Import ListNotations.\n"
+           "From Chess Require Import base.Types model.Board model.MoveGen model.Fen spec.Rules proofs.CoreFacts.\n"
+           "Local Open Scope N_scope.\n"
+           "Definition mk (s d : N) (p : option piece) : move := {| m_src := s; m_dst := d; m_promo := p |}.\n"
+           "Definition ok1 (c : list N * list move) : bool * bool :=\n"
+           "  match parse_fen (fst c) with\n"
+           "  | Some b => (moves_sorted_eqb (legals b) (snd c), moves_sorted_eqb (legal_moves (Board.abs b)) (snd c))\n"
+           "  | None => (false, false) end.\n"
+           "Definition cases : list (list N * list move) := [\n  " + ";\n  ".join(cases) + "].\n"
+           "Eval vm_compute in map ok1 cases.\n")
+    path = os.path.join(ctx.run_dir, "cases_%s.v" % ctx.pid)
+    with open(path, "w") as f:
+        f.write(src)
+    rc, out = sh(["coqc", "-noglob", "-Q", os.path.join(ctx.root, "coq"), "Chess", "-w", "-notation-overridden,-deprecated-hint-without-locality",
+                  path], 900, cwd=ctx.run_dir)
+    toks = re.findall(r"\b(true|false)\b", out) if rc == 0 else []
+    ok = rc == 0 and len(toks) == 2 * len(pick)
+    ctx.oblige("in-Coq re-evaluation (vm_compute, no extraction) of %d sampled positions ran" % len(pick), ok, out[-1500:] if not ok else "")
+    ctx.coverage["in_coq_cases"] = len(pick)
+    diffs = []
+    if ok:
+        for i, p in enumerate(pick):
+            if toks[2 * i] != "true":
+                diffs.append(dict(kind="COQ", what="model:legal-moves evaluated inside Coq (vm_compute) = implementation", expected="true", line="\t".join(p)[:600]))
+            if toks[2 * i + 1] != "true":
+                diffs.append(dict(kind="COQ", what="spec:legal-moves = Rules.legal_moves evaluated inside Coq (vm_compute)", expected="true", line="\t".join(p)[:600]))
+    return diffs
+
+
 def classify(ctx, diffs, known):
     """spec:* diffs are concrete failing inputs (implementation contradicts the reference semantics);
     model:* diffs alone mean the correspondence broke without a failing input being found."""
@@ -473,6 +533,8 @@ def main(root, argv):
                 j.setdefault("sub", []).append(so or "/nonexistent")
         results = run_jobs(ctx, vh, driver, jobs)
         diffs = collect(ctx, results, known)
+        if spec.get("coq_sample") and coq_ok:
+            diffs += coq_sample(ctx, results, spec["coq_sample"])
     else:
         ctx.oblige("correspondence could run", False, "harness or driver failed to build")
         if not vh:
